@@ -67,7 +67,7 @@ impl Area for LocalArea {
         let (mut direct, mut flushed): (u64, u64) = (0, 0); let mut pend: Vec<u64> = vec![];
         let (mut hdirect, mut hflushed): (u64, u64) = (0, 0); let mut hpend: Vec<Option<u64>> = vec![];
         // sums, in the order the code adds them: a local sum is the left fold of its observations from 0.0, a flush adds that sum to the shared sum
-        let mut hsum_ref: f64 = 0.0; let mut hpsum: Vec<f64> = vec![];
+        let mut hsum_ref: f64 = 0.0; let mut hpsum: Vec<f64> = vec![]; let mut hpv: Vec<Vec<f64>> = vec![]; let mut hdel: Vec<f64> = vec![];
         let mut nflush = 0;
         // vector reference: exported children (tuple -> (generation, value)); per handle: tuple -> (generation bound, pending)
         let mut vexp: std::collections::HashMap<Vec<String>, (u64, u64)> = Default::default(); let mut vgen: u64 = 0;
@@ -90,16 +90,18 @@ impl Area for LocalArea {
                     if shared != direct + flushed { fails.push(Failure { class: "counter-handover".into(), detail: format!("shared counter = {} but direct updates {} + flushed batches {} (since the last shared reset)", shared, direct, flushed) }); }
                     if locals != pend { fails.push(Failure { class: "counter-pending".into(), detail: format!("local pending {:?}, accumulated since last flush/reset {:?}", locals, pend) }); }
                     outs.push(format!("shared={} locals={}", shared, nat_list(&locals))) }
-                "hnew" => { hs = Some(Histogram::with_opts(HistogramOpts::new("h", "h").buckets(f64_parse_list(p[2]))).unwrap()); hl.clear(); hpend.clear(); hdirect = 0; hflushed = 0; hsum_ref = 0.0; hpsum.clear(); outs.push("ok".into()) }
-                "hlnew" => { hl.push(Some(hs.as_ref().unwrap().local())); hpend.push(Some(0)); hpsum.push(0.0); outs.push(format!("ok h={}", hl.len() - 1)) }
-                "hlobs" => { if let Some(l) = &hl[num(2)] { l.observe(f64_parse(p[3])); *hpend[num(2)].as_mut().unwrap() += 1; hpsum[num(2)] += f64_parse(p[3]); } outs.push("ok".into()) }
-                "hlflush" => { if let Some(l) = &hl[num(2)] { l.flush(); if hpend[num(2)].unwrap() > 0 { hsum_ref += hpsum[num(2)]; } hpsum[num(2)] = 0.0; hflushed += hpend[num(2)].unwrap(); hpend[num(2)] = Some(0); nflush += 1; } outs.push("ok".into()) }
-                "hlclear" => { if let Some(l) = &hl[num(2)] { l.clear(); hpend[num(2)] = Some(0); hpsum[num(2)] = 0.0; } outs.push("ok".into()) }
-                "hlclone" => { match &hl[num(2)] { Some(l) => { let c = l.clone(); hl.push(Some(c)); hpend.push(Some(0)); hpsum.push(0.0); } None => { hl.push(None); hpend.push(None); hpsum.push(0.0); } } outs.push(format!("ok h={}", hl.len() - 1)) }
-                "hldrop" => { let i = num(2); if hl[i].is_some() { hl[i] = None; if hpend[i].unwrap() > 0 { hsum_ref += hpsum[i]; } hpsum[i] = 0.0; hflushed += hpend[i].unwrap(); hpend[i] = None; nflush += 1; } outs.push("ok".into()) }
-                "hsobs" => { hs.as_ref().unwrap().observe(f64_parse(p[2])); hdirect += 1; hsum_ref += f64_parse(p[2]); outs.push("ok".into()) }
+                "hnew" => { hs = Some(Histogram::with_opts(HistogramOpts::new("h", "h").buckets(f64_parse_list(p[2]))).unwrap()); hl.clear(); hpend.clear(); hdirect = 0; hflushed = 0; hsum_ref = 0.0; hpsum.clear(); hpv.clear(); hdel.clear(); outs.push("ok".into()) }
+                "hlnew" => { hl.push(Some(hs.as_ref().unwrap().local())); hpend.push(Some(0)); hpsum.push(0.0); hpv.push(vec![]); outs.push(format!("ok h={}", hl.len() - 1)) }
+                "hlobs" => { if let Some(l) = &hl[num(2)] { l.observe(f64_parse(p[3])); *hpend[num(2)].as_mut().unwrap() += 1; hpsum[num(2)] += f64_parse(p[3]); hpv[num(2)].push(f64_parse(p[3])); } outs.push("ok".into()) }
+                "hlflush" => { if let Some(l) = &hl[num(2)] { l.flush(); let vs = std::mem::take(&mut hpv[num(2)]); hdel.extend(vs); if hpend[num(2)].unwrap() > 0 { hsum_ref += hpsum[num(2)]; } hpsum[num(2)] = 0.0; hflushed += hpend[num(2)].unwrap(); hpend[num(2)] = Some(0); nflush += 1; } outs.push("ok".into()) }
+                "hlclear" => { if let Some(l) = &hl[num(2)] { l.clear(); hpend[num(2)] = Some(0); hpsum[num(2)] = 0.0; hpv[num(2)].clear(); } outs.push("ok".into()) }
+                "hlclone" => { match &hl[num(2)] { Some(l) => { let c = l.clone(); hl.push(Some(c)); hpend.push(Some(0)); hpsum.push(0.0); hpv.push(vec![]); } None => { hl.push(None); hpend.push(None); hpsum.push(0.0); hpv.push(vec![]); } } outs.push(format!("ok h={}", hl.len() - 1)) }
+                "hldrop" => { let i = num(2); if hl[i].is_some() { hl[i] = None; let vs = std::mem::take(&mut hpv[i]); hdel.extend(vs); if hpend[i].unwrap() > 0 { hsum_ref += hpsum[i]; } hpsum[i] = 0.0; hflushed += hpend[i].unwrap(); hpend[i] = None; nflush += 1; } outs.push("ok".into()) }
+                "hsobs" => { hs.as_ref().unwrap().observe(f64_parse(p[2])); hdirect += 1; hsum_ref += f64_parse(p[2]); hdel.push(f64_parse(p[2])); outs.push("ok".into()) }
                 "hget" => {
-                    let (count, sum, cum, _) = snapshot(hs.as_ref().unwrap());
+                    let (count, sum, cum, ub) = snapshot(hs.as_ref().unwrap());
+                    // every bucket holds exactly the delivered observations not greater than its bound (direct ones and those of flushed / dropped batches)
+                    for (i, b) in ub.iter().enumerate() { let want = hdel.iter().filter(|v| **v <= *b).count() as u64; if cum.get(i) != Some(&want) { fails.push(Failure { class: "histogram-handover".into(), detail: format!("bucket le={} holds {:?} observations, {} of the delivered ones are <= the bound", b, cum.get(i), want) }); } }
                     if count != hdirect + hflushed { fails.push(Failure { class: "histogram-handover".into(), detail: format!("shared sample_count = {} but direct {} + flushed/dropped batches {}", count, hdirect, hflushed) }); }
                     if f64_show(sum) != f64_show(hsum_ref) { fails.push(Failure { class: "histogram-handover".into(), detail: format!("shared sample_sum = {} but direct observations plus the flushed/dropped batches' sums give {}", sum, hsum_ref) }); }
                     for (i, l) in hl.iter().enumerate() { if let Some(l) = l { if f64_show(l.get_sample_sum()) != f64_show(hpsum[i]) { fails.push(Failure { class: "histogram-pending".into(), detail: format!("local {} holds sum {}, accumulated since the last flush/clear {}", i, l.get_sample_sum(), hpsum[i]) }); } } }
